@@ -471,6 +471,31 @@ func (c *Ctx) builtin(b *ssa.Builtin, args []Value) Value {
 			d.back.e[d.off+k] = src[k]
 		}
 		return BV(uint64(n), 64)
+	case "min", "max":
+		sig, _ := b.Type().(*types.Signature)
+		signed := true
+		if sig != nil && sig.Params().Len() > 0 {
+			if bt, ok := sig.Params().At(0).Type().Underlying().(*types.Basic); ok {
+				if bt.Info()&types.IsInteger == 0 {
+					c.errf("builtin %s on non-integer operands", b.Name())
+				}
+				signed = bt.Info()&types.IsUnsigned == 0
+			}
+		}
+		lt := "bvult"
+		if signed {
+			lt = "bvslt"
+		}
+		res := args[0].(*Term)
+		for _, o := range args[1:] {
+			ot := o.(*Term)
+			if b.Name() == "min" {
+				res = Ite(Cmp(lt, ot, res), ot, res)
+			} else {
+				res = Ite(Cmp(lt, res, ot), ot, res)
+			}
+		}
+		return res
 	case "recover":
 		// deferred functions only run on normal return in this engine (a panic
 		// ends the path and is reported), so there is never a panic to recover
